@@ -416,4 +416,39 @@ example : (linesOf ((LW.new 6).wrap (fun c => if c == '世' || c == '界' then 2
     (findWords "世界 bb 世".toList)).2.reverse).map (lineTrimW (fun c => if c == '世' || c == '界' then 2 else 1)) = [5, 4] := by decide
 example : SPlain (fun c => if c == '世' || c == '界' then 2 else 1) "世界 bb 世".toList := by unfold SPlain; decide
 
+/-! #### 8. the bound on the text `textwrap::wrap` returns -/
+
+theorem splitInclusiveAux_nonl : ∀ (s cur : Str), (∀ c ∈ s, c ≠ '\n') →
+    splitInclusiveAux cur s = if (cur.reverse ++ s).isEmpty then [] else [cur.reverse ++ s]
+  | [], cur, _ => by simp [splitInclusiveAux]
+  | c :: cs, cur, h => by
+    have hc : (c == '\n') = false := by simpa using h c List.mem_cons_self
+    unfold splitInclusiveAux
+    simp only [hc, Bool.false_eq_true, ↓reduceIte]
+    rw [splitInclusiveAux_nonl cs (c :: cur) (fun x hx => h x (List.mem_cons_of_mem _ hx))]
+    simp
+
+/-- **end to end for a paragraph without line breaks**: what `textwrap::wrap` returns for such a text IS a list of lines
+joined by `"\n"` (`render`), and every one of those lines, trailing spaces aside, fits the width in display columns or is
+no wider than the hanging indent plus one word of the text. -/
+theorem wrap_width_text (cw : Char → Nat) (content : Str) (hard : Nat) (hp : SPlain cw content) :
+    ∃ ls : List (List Str), wrap cw content hard = render ls ∧
+      ∀ l ∈ ls, lineTrimW cw l ≤ hard ∨
+        ∃ w ∈ findWords content, lineTrimW cw l ≤ indentOf (findWords content) + dw cw (trimSp w) := by
+  have hnl : ∀ c ∈ content, c ≠ '\n' := by
+    intro c hc e
+    subst e
+    have := (hp '\n' hc).1
+    simp [isAsciiControl] at this
+  have hsplit := splitInclusiveAux_nonl content [] hnl
+  simp only [List.reverse_nil, List.nil_append] at hsplit
+  by_cases he : content.isEmpty = true
+  · refine ⟨[], ?_, by intro l hl; simp at hl⟩
+    simp [wrap, splitInclusive, hsplit, he, wrapLines, render]
+  · refine ⟨linesOf ((LW.new hard).wrap cw (findWords content)).2.reverse, ?_, wrap_line_width_cols cw hard content hp⟩
+    rw [← flatten_eq_render]
+    simp [wrap, splitInclusive, hsplit, he, wrapLines]
+
+example : wrap (fun _ => 1) "aaa bbb ccc".toList 7 = "aaa bbb\nccc".toList := by decide
+
 end Clap.C20
